@@ -197,13 +197,13 @@ OBLIGATIONS = [
          parts={"quick": ["len(chunks) <= 1 and " + c + " and " + _HA
                           for c in ["cpos == -1"] + ["cpos == %d" % k for k in range(1, 15)]]
                          + ["len(chunks) == 2 and chunks[0] == %d and cpos == -1 and %s" % (k, _HA) for k in (1, 2, 11, 12)],
-                "thorough": ["len(chunks) <= 1 and " + c + " and " + h
-                             for c in ("cpos == -1", "cpos >= 1 and cpos <= 5", "cpos >= 6 and cpos <= 10", "cpos >= 11")
-                             for h in (_HA, _HB)]
+                "thorough": ["len(chunks) <= 1 and " + c + " and " + _HA
+                             for c in ["cpos == -1"] + ["cpos == %d" % k for k in range(1, 15)]]
+                            + ["len(chunks) == 2 and chunks[0] == %d and cpos == -1 and %s" % (k, _HA) for k in range(1, 16)]
                             + ["len(chunks) == 2 and chunks[0] == %d and %s and %s" % (k, c, _HA) for k in range(1, 16)
-                               for c in ("cpos == -1", "cpos >= 1")]},
+                               for c in ("cpos >= 1 and cpos <= 5", "cpos >= 6 and cpos <= 10", "cpos >= 11")]},
          functions=["SecsIProtocol._process_received_data", "ByteQueue.wait_for/pop", "SecsIBlock.decode", "Protocol._dispatch_block"],
-         bounds="one single-block message (header: device id, R-bit all values with S1F1/W fixed and system fixed | all system bytes with the rest fixed: symbolic stream/function would enumerate the whole catalogue in the decode-for-logging step), body "
+         bounds="one single-block message (header: device id and R-bit all values, S1F1/W and system bytes fixed: symbolic stream/function would enumerate the whole catalogue in the decode-for-logging step, symbolic system bytes made the checksum queries time out here - all system bytes are covered by C16 block_decode/block_corruption), body "
                 "0..2 symbolic bytes, delivered in <= 2 chunks of symbolic sizes 1..15 plus the rest, after the EOT; optionally one corrupted header / data-tail / checksum byte (any value): EOT then ACK and "
                 "one delivery, or EOT then NAK and no delivery",
          outside="corruption of the length byte (the receiver then waits for a different number of bytes: needs the T2 timeout, which "
